@@ -60,19 +60,30 @@ structure Cfg where
   bs    : Nat
   failB : Option Nat := none
   failF : Option Nat := none
+  /-- the context is cancelled, for good, from its `k`-th poll on (0-based); the
+  importer polls it once per batch in each validator and once per iteration of
+  the write loop -/
+  cancelAt : Option Nat := none
 deriving Repr
 
 inductive Err where
   | open | net | type | start | count | tip | gap | conn | mismatch | invalid
-  | read | tipmis | lenmis | bwrite | fwrite | rbfail | fuel
+  | read | tipmis | lenmis | bwrite | fwrite | rbfail | fuel | cancel
 deriving DecidableEq, Repr
 
-/-- stores plus the number of non-empty writes attempted so far -/
+/-- stores plus the number of non-empty writes attempted and of context polls made so far -/
 structure Run where
   st : Stores
   nb : Nat := 0
   nf : Nat := 0
+  np : Nat := 0
 deriving Repr
+
+/-- `ctxCancelled(ctx)` at the poll with index `p` -/
+def cancelled (cfg : Cfg) (p : Nat) : Bool :=
+  match cfg.cancelAt with
+  | some c => decide (c ≤ p)
+  | none => false
 
 /-- `BlockHeaderStore.ChainTip()`: the index's tip height, if the file has it. -/
 def bChainTip (st : Stores) : Option Nat :=
@@ -269,14 +280,18 @@ def processBatch (F : File) (cfg : Cfg) (srcEnd : Nat) (mode : Mode) (batchStart
         | (none, r') => .next batchEnd r'
         | (some e, r') => .err e r'
 
-/-- the `for` loop of `appendNewHeaders`; `fuel` bounds the number of batches -/
+/-- the `for` loop of `appendNewHeaders`; `fuel` bounds the number of batches.
+Every iteration begins with `ctxCancelled(ctx)` — BEFORE `processBatch`
+(source fact `Gen.Import.cancelCheckBeforeProcessBatch`). -/
 def appendLoop (F : File) (cfg : Cfg) (srcEnd : Nat) (mode : Mode) : Nat → Nat → Run → Option Err × Run
   | 0, _, r => (some .fuel, r)
   | fuel + 1, batchStart, r =>
-    match processBatch F cfg srcEnd mode batchStart r with
-    | .eof => (none, r)
-    | .err e r' => (some e, r')
-    | .next batchEnd r' => appendLoop F cfg srcEnd mode fuel (batchEnd + 1) r'
+    if cancelled cfg r.np then (some .cancel, r)
+    else
+      match processBatch F cfg srcEnd mode batchStart { r with np := r.np + 1 } with
+      | .eof => (none, { r with np := r.np + 1 })
+      | .err e r' => (some e, r')
+      | .next batchEnd r' => appendLoop F cfg srcEnd mode fuel (batchEnd + 1) r'
 
 /-- `appendNewHeaders(startHeight, endHeight, mode)`: the iterators get source
 INDICES `startHeight - fileStart .. endHeight - fileStart`; the loop starts at
@@ -308,6 +323,18 @@ def processRegions (F : File) (cfg : Cfg) (b f : Nat) (r : Run) : Option Err × 
     if n.exists then appendNew F cfg n.start n.stop n.mode r1
     else (none, r1)
 
+/-- number of batches (= context polls) of one validator pass over the file -/
+def valBatches (F : File) (cfg : Cfg) : Nat := (F.blocks.length + cfg.bs - 1) / cfg.bs
+
+/-- the part of the block file the block validator has checked when it returns:
+all of it, or — the validators return `nil` as soon as they see a cancelled
+context (source fact `Gen.Import.validatorsReturnNilOnCancel`) — the batches
+before the one at whose poll the cancellation was noticed -/
+def validatedBody (F : File) (cfg : Cfg) : List BHdr :=
+  match cfg.cancelAt with
+  | some c => if c < valBatches F cfg then F.blocks.take (c * cfg.bs) else F.blocks
+  | none => F.blocks
+
 /-- `headersImport.Import` -/
 def importRun (F : File) (cfg : Cfg) (st : Stores) : Option Err × Run :=
   let r : Run := { st := st }
@@ -317,10 +344,11 @@ def importRun (F : File) (cfg : Cfg) (st : Stores) : Option Err × Run :=
     match continuity F st with
     | some e => (some e, r)
     | none =>
-      if !validateBlocks F.blocks cfg.bs then (some .invalid, r)
+      if !validateBlocks (validatedBody F cfg) cfg.bs then (some .invalid, r)
       else
         match bChainTip st, fChainTip st with
-        | some b, some f => processRegions F cfg b f r
+        -- both validators have polled the context once per batch
+        | some b, some f => processRegions F cfg b f { r with np := 2 * valBatches F cfg }
         | _, _ => (some .tip, r)
 
 def importStores (F : File) (cfg : Cfg) (st : Stores) : Option Err × Stores :=
